@@ -21,8 +21,8 @@ use crate::errors::{ParquetError, Result};
 use ahash::RandomState;
 use arrow_array::{Array, DictionaryArray, downcast_integer};
 use arrow_array::{
-    ArrayRef, FixedSizeBinaryArray, OffsetSizeTrait, cast::AsArray, make_array,
-    types::ArrowDictionaryKeyType,
+    ArrayRef, BinaryArray, FixedSizeBinaryArray, LargeBinaryArray, LargeStringArray,
+    OffsetSizeTrait, StringArray, cast::AsArray, make_array, types::ArrowDictionaryKeyType,
 };
 use arrow_buffer::{ArrowNativeType, Buffer, MutableBuffer};
 use arrow_data::ArrayDataBuilder;
@@ -168,6 +168,32 @@ impl<K: ArrowNativeType + Ord, V: OffsetSizeTrait> DictionaryBuffer<K, V> {
                         binary.values().clone(),
                         binary.nulls().cloned(),
                     )) as _
+                } else if values.data_type() != value_type.as_ref() {
+                    // The dictionary page is decoded according to the Parquet column (Binary for a
+                    // BYTE_ARRAY column without a UTF8 annotation): convert to the requested value
+                    // type, validating UTF-8 where that type demands it
+                    match (values.data_type(), value_type.as_ref()) {
+                        (ArrowType::Binary, ArrowType::Utf8) => Arc::new(
+                            StringArray::try_from_binary(values.as_binary::<i32>().clone())?,
+                        ) as _,
+                        (ArrowType::LargeBinary, ArrowType::LargeUtf8) => Arc::new(
+                            LargeStringArray::try_from_binary(values.as_binary::<i64>().clone())?,
+                        )
+                            as _,
+                        (ArrowType::Utf8, ArrowType::Binary) => {
+                            Arc::new(BinaryArray::from(values.as_string::<i32>().clone())) as _
+                        }
+                        (ArrowType::LargeUtf8, ArrowType::LargeBinary) => {
+                            Arc::new(LargeBinaryArray::from(values.as_string::<i64>().clone())) as _
+                        }
+                        (have, want) => {
+                            return Err(general_err!(
+                                "dictionary values of type {} cannot be read as {}",
+                                have,
+                                want
+                            ));
+                        }
+                    }
                 } else {
                     values
                 };
